@@ -450,6 +450,13 @@ impl State {
     }
 
     fn intern_source(&mut self, buf: Xstr, path: Option<Xstr>) -> Xresult {
+        // reading sources executes nothing, so no instruction limit ever stops a file
+        // that includes itself: the nesting is bounded here
+        const MAX_PENDING_SOURCES: usize = 1000;
+        if self.input.len() >= MAX_PENDING_SOURCES {
+            let msg = xeh_xstr!("sources nested too deep");
+            return Err(Xerr::ErrorMsg(msg));
+        }
         let id = self.sources.len();
         let lex = Lex::new(buf.clone());
         let name = if let Some(name) = path {
